@@ -287,3 +287,39 @@ Definition hip_check (pkg : string) (argv : list string) (ok_inputs : list strin
   let o := hip_main (fun p => if mem_s p ok_inputs then HOk EmptyString else HFail) pkg argv dir_ok in
   Bool.eqb obs_raised (ho_raises o)
   && same_set obs_files (match ho_report_at o with Some r => [fs_canon r] | None => [] end).
+
+(* ================= Model.__init__(input_file=kw): which file a Model reads =================
+     if input_file is None and len(sys.argv) > 1: input_file = sys.argv[1]
+   the keyword wins; sys.argv[1] is only the fall-back *)
+Definition model_input_source (kw : option string) (argv : list string) : option string :=
+  match kw with
+  | Some a => Some a
+  | None => nth_error argv 1
+  end.
+
+(* ================= histories of client calls in one process =================
+   get_geophires_result: stash_cwd = Path.cwd() ... try: main() ... finally: sys.argv = stash; os.chdir(stash_cwd)
+   - the working directory is restored whatever main() did (it chdir()s into the package directory first) *)
+Record creq := { q_inp : string; q_out : string; q_text : string }.
+Section Histories.
+  Variable run : string -> sim.
+  Definition client_step (pkg st : string) (q : creq) : string * outcome :=
+    (st, client run st pkg (q_inp q) (q_out q) (q_text q)).
+  (* a client that restores the directory only when main() returned normally (chdir after, not in, the finally) *)
+  Definition client_step_leaky (pkg st : string) (q : creq) : string * outcome :=
+    let o := client run st pkg (q_inp q) (q_out q) (q_text q) in
+    ((if Z.eqb (o_exit o) 0 then st else pkg), o).
+  Fixpoint history (step : string -> string -> creq -> string * outcome) (pkg st : string) (qs : list creq)
+    : list (string * outcome) :=     (* working directory after, and outcome of, each call *)
+    match qs with
+    | [] => []
+    | q :: r => let so := step pkg st q in so :: history step pkg (fst so) r
+    end.
+End Histories.
+Definition sim_of_text (t : string) : sim :=
+  if String.eqb t "ok" then SimOk EmptyString else if String.eqb t "abort" then SimAbort else SimFail.
+Definition history_check (pkg cwd : string) (kinds obs_cwds : list string) : bool :=
+  Tokenizer.list_eqb String.eqb
+    (map fst (history (client_step sim_of_text) pkg cwd
+                 (map (fun k => {| q_inp := "in.txt"; q_out := "/tmp/o.out"; q_text := k |}) kinds)))
+    obs_cwds.
